@@ -109,10 +109,20 @@ type viewRow struct {
 	Active bool
 }
 type viewRes struct {
+	ID         string
 	Summary    string
 	ActiveMeta map[string]bool
 	Counts     []viewRow
 	Stacks     []viewRow
+}
+
+type viewProgram struct {
+	Program, Version, GoVersion, GOOS, GOARCH string
+	Summary                                   string
+}
+type viewReport struct {
+	Week     string
+	Programs []viewProgram
 }
 
 var server, viewer *helper
@@ -125,16 +135,21 @@ func askServer(cfg *telemetry.UploadConfig, body []byte) serverRes {
 
 // ---------------------------------------------------------------- one uploader run
 
-type fileSpec struct {
-	id     Ident
-	omit   int
-	counts []KV
+type fileSpec = FileSpec
+
+// week: the dates of one case
+type week struct{ begin, end, start time.Time }
+
+func genWeek() week {
+	end := time.Date(2001+rnd.Intn(90), time.Month(1+rnd.Intn(12)), 1+rnd.Intn(28), 0, 0, 0, 0, time.UTC)
+	return week{end.AddDate(0, 0, -7), end, end.Add(time.Hour + time.Duration(rnd.Int63n(int64(19*24*time.Hour))))}
 }
 
-// runUploader writes the files into a fresh telemetry dir and runs the real
-// findWork+reports with X = XOf(m); returns the bytes of local/<week>.json
-// (nil when none was written) and the parsed files.
-func runUploader(ucfg *telemetry.UploadConfig, cfgVersion string, m uint64, files []fileSpec) (body []byte, parsed []*counter.File) {
+// runUploader writes the (placed) files into a fresh telemetry dir, calls
+// hook(local dir) while the count files are there, and runs the real
+// findWork+reports with X = XOf(m); returns the bytes of local/<week>.json and
+// local/local.<week>.json (nil when not written) and the files as the real parser reads them.
+func runUploader(ucfg *telemetry.UploadConfig, cfgVersion string, m uint64, w week, files []fileSpec, hook func(localDir string)) (body, localBody []byte, parsed []*counter.File) {
 	dir, err := os.MkdirTemp(root, "t")
 	if err != nil {
 		panic(err)
@@ -143,15 +158,12 @@ func runUploader(ucfg *telemetry.UploadConfig, cfgVersion string, m uint64, file
 	tdir := telemetry.NewDir(dir)
 	os.MkdirAll(tdir.LocalDir(), 0777)
 	os.MkdirAll(tdir.UploadDir(), 0777)
-	end := time.Date(2001+rnd.Intn(90), time.Month(1+rnd.Intn(12)), 1+rnd.Intn(28), 0, 0, 0, 0, time.UTC)
-	begin := end.AddDate(0, 0, -7)
-	start := end.Add(time.Hour + time.Duration(rnd.Int63n(int64(19*24*time.Hour))))
-	if err := tdir.SetModeAsOf("on", begin.AddDate(0, 0, -30)); err != nil {
+	if err := tdir.SetModeAsOf("on", w.begin.AddDate(0, 0, -30)); err != nil {
 		panic(err)
 	}
-	for i, fs := range files {
-		data := EncodeCountFile(MetaString(begin.Format(time.RFC3339), end.Format(time.RFC3339), fs.id, fs.omit), fs.counts)
-		name := filepath.Join(tdir.LocalDir(), fmt.Sprintf("%02d-prog.v1.count", i))
+	for _, fs := range files {
+		data := EncodeCountFile(MetaString(fs.Begin.Format(time.RFC3339), w.end.Format(time.RFC3339), fs.ID, fs.Omit), fs.Counts)
+		name := filepath.Join(tdir.LocalDir(), fs.Name)
 		if err := os.WriteFile(name, data, 0666); err != nil {
 			panic(err)
 		}
@@ -161,16 +173,33 @@ func runUploader(ucfg *telemetry.UploadConfig, cfgVersion string, m uint64, file
 		}
 		parsed = append(parsed, pf)
 	}
+	if hook != nil {
+		hook(tdir.LocalDir())
+	}
 	crand.Reader = &CycleReader{Data: RandBytesFor(rnd, m)}
-	u := upload.VerifNewUploader(dir, "http://127.0.0.1:1", start, ucfg, cfgVersion, nil)
+	u := upload.VerifNewUploader(dir, "http://127.0.0.1:1", w.start, ucfg, cfgVersion, nil)
 	if _, err := u.Reports(); err != nil {
 		panic(err)
 	}
-	body, err = os.ReadFile(filepath.Join(tdir.LocalDir(), end.Format("2006-01-02")+".json"))
+	wk := w.end.Format("2006-01-02")
+	body, _ = os.ReadFile(filepath.Join(tdir.LocalDir(), wk+".json"))
+	localBody, _ = os.ReadFile(filepath.Join(tdir.LocalDir(), "local."+wk+".json"))
+	return body, localBody, parsed
+}
+
+// viewReports: the viewer's reports() on a directory holding exactly this one report file
+func viewReports(ucfg *telemetry.UploadConfig, name string, data []byte) []viewReport {
+	dir, err := os.MkdirTemp(root, "r")
 	if err != nil {
-		return nil, parsed
+		panic(err)
 	}
-	return body, parsed
+	defer os.RemoveAll(dir)
+	if err := os.WriteFile(filepath.Join(dir, name), data, 0666); err != nil {
+		panic(err)
+	}
+	var res struct{ Reports []viewReport }
+	viewer.call(map[string]any{"Cfg": ucfg, "Dir": dir, "What": "reports"}, &res)
+	return res.Reports
 }
 
 // ---------------------------------------------------------------- perturbations of a report
@@ -329,22 +358,27 @@ func caseApproval() {
 	BigValues = false
 	nf := 1 + rnd.Intn(3)
 	var files []fileSpec
-	if rnd.Chance(35) {
+	if rnd.Chance(15) {
+		// two different programs with the same base name, version and platform, one of them approved
+		ucfg, files = GenSameBaseWeek(rnd, x)
+		nf = len(files)
+		out.Note("same-base-week")
+	} else if rnd.Chance(35) {
 		// several programs recording items of the same names, approved differently per program
 		var shared []FileSpec
 		ucfg, shared = GenSharedNamesWeek(rnd, x)
 		ucfg.SampleRate = Pick(rnd, []float64{0, 1})
 		for _, f := range shared {
-			files = append(files, fileSpec{id: f.ID, omit: f.Omit, counts: f.Counts})
+			files = append(files, f)
 		}
 		nf = len(files)
 		out.Note("shared-names-week")
 	} else {
 		for i := 0; i < nf; i++ {
 			b := Pick(rnd, builds)
-			fs := fileSpec{id: b, counts: GenCounts(rnd, ucfg, b.Program, 7)}
+			fs := fileSpec{ID: b, Counts: GenCounts(rnd, ucfg, b.Program, 7)}
 			if rnd.Chance(4) {
-				fs.omit = 1 + rnd.Intn(5)
+				fs.Omit = 1 + rnd.Intn(5)
 				out.Note("meta-line-omitted")
 			}
 			files = append(files, fs)
@@ -353,8 +387,19 @@ func caseApproval() {
 	f := []string{"approval"}
 	f = append(f, WConfig(ucfg)...)
 
+	// the week's files as they lie in the directory (names as rotate1 writes them in half of the cases)
+	w := genWeek()
+	realistic := rnd.Chance(60)
+	if realistic {
+		out.Note("rotate1-file-names")
+	}
+	files = PlaceFiles(rnd, files, w.begin, w.end, realistic)
+	// the viewer's files() on the directory while the count files are there
+	var fileViews struct{ Files []viewRes }
 	// the uploader's report under this configuration, judged by the server
-	body, parsed := runUploader(ucfg, cfgVersion, m, files)
+	body, localBody, parsed := runUploader(ucfg, cfgVersion, m, w, files, func(localDir string) {
+		viewer.call(map[string]any{"Cfg": ucfg, "Dir": localDir, "What": "files"}, &fileViews)
+	})
 	f = append(f, I(int64(len(parsed))))
 	for _, pf := range parsed {
 		f = append(f, WFile(pf.Meta, pf.Count)...)
@@ -402,7 +447,7 @@ func caseApproval() {
 		}
 	}
 	if anyCount {
-		b0, _ := runUploader(ucfg, cfgVersion, 0, files)
+		b0, _, _ := runUploader(ucfg, cfgVersion, 0, w, files, nil)
 		if b0 == nil {
 			panic("no upload report at X = 0")
 		}
@@ -418,16 +463,14 @@ func caseApproval() {
 	} else {
 		f = append(f, "none")
 	}
-	// the viewer on every file
-	for _, pf := range parsed {
-		req := map[string]any{"Cfg": ucfg, "Meta": pf.Meta}
-		var cnt []map[string]any
-		for k, v := range pf.Count {
-			cnt = append(cnt, map[string]any{"K": k, "V": v})
+	// the viewer on every count file (through files(dir, cfg), in directory order)
+	if len(fileViews.Files) != len(files) {
+		panic(fmt.Sprintf("the viewer's files() shows %d of %d count files", len(fileViews.Files), len(files)))
+	}
+	for i, vr := range fileViews.Files {
+		if vr.ID != files[i].Name {
+			panic("the viewer's files() lists the count files in another order")
 		}
-		req["Count"] = cnt
-		var vr viewRes
-		viewer.call(req, &vr)
 		class, names := classifySummary(vr.Summary)
 		out.Note("viewer-" + class)
 		f = append(f, class)
@@ -450,6 +493,47 @@ func caseApproval() {
 		f = append(f, I(int64(len(rows))))
 		for _, r := range rows {
 			f = append(f, HS(r.k), B(r.a))
+		}
+	}
+	// the viewer on the week's reports (through reports(dir, cfg)): the local
+	// (unfiltered) report and the upload report, each alone in a directory
+	type rv struct {
+		tag  string
+		name string
+		data []byte
+	}
+	var rvs []rv
+	wk := w.end.Format("2006-01-02")
+	if localBody != nil {
+		rvs = append(rvs, rv{"local", "local." + wk + ".json", localBody})
+	}
+	if body != nil {
+		rvs = append(rvs, rv{"upload", wk + ".json", body})
+	}
+	f = append(f, I(int64(len(rvs))))
+	for _, r := range rvs {
+		var rep telemetry.Report
+		if err := json.Unmarshal(r.data, &rep); err != nil {
+			panic(err)
+		}
+		views := viewReports(ucfg, r.name, r.data)
+		if len(views) != 1 || views[0].Week != rep.Week || len(views[0].Programs) != len(rep.Programs) {
+			panic(fmt.Sprintf("the viewer's reports() does not show the %s report as one report with all its programs", r.tag))
+		}
+		f = append(f, r.tag)
+		f = append(f, WReport(&rep)...)
+		for i, vp := range views[0].Programs {
+			p := rep.Programs[i]
+			if vp.Program != p.Program || vp.Version != p.Version || vp.GoVersion != p.GoVersion || vp.GOOS != p.GOOS || vp.GOARCH != p.GOARCH {
+				panic("the viewer's reports() shows the programs of a report in another order")
+			}
+			class, names := classifySummary(vp.Summary)
+			out.Note("report-view-" + r.tag + "-" + class)
+			if len(p.Stacks) > 0 {
+				out.Note("report-view-" + r.tag + "-program-with-stacks")
+			}
+			f = append(f, class)
+			f = append(f, WStrs(names)...)
 		}
 	}
 	out.Note(fmt.Sprintf("files-%d", nf))
